@@ -388,6 +388,7 @@ impl Client {
     /// they would not be sent.
     pub fn send_buffer_size(&self) -> usize {
         match self.state {
+            State::Pending(ref state) => state.initial_sends.iter().map(|entry| entry.data.len()).sum(),
             State::Active(ref state) => state.half_connection.send_buffer_size(),
             _ => 0,
         }
